@@ -329,6 +329,11 @@ class Oracle(object):
             return os.path.join(self.bases['pilot'], task['uid'])
         if kind == 'named':
             return os.path.join(self.bases['pilot'], 'sbx_' + task['uid'])
+        if kind in NAMED_FORMS:
+            # relative names are relative to the pilot sandbox, whatever
+            # they start with
+            return os.path.normpath(os.path.join(self.bases['pilot'],
+                                    NAMED_FORMS[kind] % task['uid']))
         return os.path.join(self.bases['ext'], 'abs_sbx_' + task['uid'])
 
     def td_sandbox(self, task):
@@ -336,6 +341,7 @@ class Oracle(object):
         kind = task['sandbox']
         if kind == 'default': return None
         if kind == 'named'  : return 'sbx_' + task['uid']
+        if kind in NAMED_FORMS: return NAMED_FORMS[kind] % task['uid']
         return self.task_sandbox(task)
 
     def base(self, loc, task):
@@ -575,6 +581,13 @@ def gen_chain(rng, stage, tag):
     return [d1, d2]
 
 
+# less common forms of a named (relative) task sandbox
+NAMED_FORMS = {'hidden' : '.hid_%s',
+               'up'     : '../up_%s',
+               'dotrel' : './dr_%s/',
+               'nested' : 'nest/ed_%s'}
+
+
 def gen_case(rng, idx):
 
     tasks = list()
@@ -582,7 +595,7 @@ def gen_case(rng, idx):
         uid  = 'task.%06d' % t
         task = {'uid'           : uid,
                 'sandbox'       : rng.choice(['default'] * 7 + ['named'] * 2 +
-                                             ['abs']),
+                                             ['abs'] + sorted(NAMED_FORMS)),
                 'outcome'       : rng.choice([rps.DONE] * 2 + [rps.FAILED]),
                 'stage_on_error': rng.random() < 0.35,
                 'inputs'        : list(),
